@@ -76,6 +76,36 @@ func genC10(c *Ctx) {
 					run("index-boundary", []string{"S:" + good, call, "B:0:" + vec, "P:0:" + share, "T", "T", "E"})
 				}
 			}
+			// long histories of REFUSED calls at every stage (a counter that refused calls advance wraps after 2^8 or
+			// 2^16 of them): the state machine must be where it was, whatever the number of refused calls
+			{
+				reps := []int{300}
+				if c.thorough() && proto != "joint" {
+					reps = []int{300, 66000}
+				}
+				rep := func(tok string, k int) []string {
+					out := make([]string, k)
+					for i := range out {
+						out[i] = tok
+					}
+					return out
+				}
+				cat := func(parts ...[]string) []string {
+					var out []string
+					for _, p := range parts {
+						out = append(out, p...)
+					}
+					return out
+				}
+				pre := []string{"S:" + good, "B:0:" + vec, "P:0:" + share}
+				for _, k := range reps {
+					run("long-refused/timeouts-after-both", cat(pre, []string{"T", "T"}, rep("T", k), []string{"T", "E", "E"}))
+					run("long-refused/starts-while-running", cat(pre, rep("S:"+good, k), []string{"T", "T", "E"}))
+					run("long-refused/ends-too-early", cat(pre, []string{"T"}, rep("E", k), []string{"T", "T", "E"}))
+					run("long-refused/calls-before-start", cat(rep("T", k), rep("E", k), pre, []string{"T", "T", "E"}))
+					run("long-refused/bad-index", cat(pre, rep("F:-1", k), rep("B:7:00", k), []string{"T", "T", "T", "E"}))
+				}
+			}
 			// random longer sequences biased towards the legal order
 			for i := 0; i < nRand; i++ {
 				l := 2 + c.intn(randLen)
